@@ -117,7 +117,7 @@ pub fn run_scenario(args: &[String]) -> String {
         let t = Trk {
             leap: 0, ref_ns: now - 1_000_000_000,
             off: 0x0200_0000 | 0x000a_0000, disp: 0x0400_0000 | 0x00b0_0000, delay: 0x0600_0000 | 0x00c0_0000,
-            interval: (5u32 << 25) | (1 << 23), refid: 0x7f00_0001,
+            interval: (5u32 << 25) | (1 << 23), refid: 0x7f00_0001, ip4: None,
         };
         Ok(wire::reply(&t))
     }));
